@@ -13,7 +13,7 @@ from vlib import Inconclusive, log
 # predicate names of RolloutsProps.tla that decide each listed property
 NAMES = {
     "C01": ["C01a", "C01ro", "C01b", "C01c"],
-    "C02": ["C02", "C02pause", "C02promote", "C02edit"],
+    "C02": ["C02", "C02pause", "C02promote", "C02edit", "C02adv"],
     "C03": ["C03a", "C03b", "C03c"],
     "C04": ["C04a", "C04b", "C04c"],
     "C05": ["C05", "C05tr"],
@@ -59,7 +59,7 @@ def signature(name, t, pre, post):
         "pre_phase": pre["ro"].get("phase", ""), "kind": pre["wl"].get("kind", ""), "style": pre["wl"].get("style", ""),
         "brEver": post["ghost"].get("brEver"), "jumpBack": post["ghost"].get("jumpBack"), "lateChange": post["ghost"].get("lateChange"), "disSup": post["ghost"].get("disSup"),
         "planEdited": bool(pre["used"].get("user.editplan")), "pre_hashOk": pre["ro"].get("hashOk"),
-        "workloadObserved": pre["wl"].get("genOk"),
+        "workloadObserved": pre["wl"].get("genOk"), "post_inprog": bool(post["wl"].get("inprog")),
     }
 
 
